@@ -1294,7 +1294,7 @@ class C08(SimpleSpec):
     def gen_cases(self, rng, n):
         r2 = __import__("random").Random(rng.random())
         return ([gen.gen_audit_as_overlap_case(r2, f"o{i}") for i in range(max(8, n // 10))] +
-                [gen.gen_audit_as_git_case(r2, f"q{i}") for i in range(max(6, n // 15))] +
+                [gen.gen_audit_as_git_case(r2, f"q{i}") for i in range(max(12, n // 8))] +
                 [gen.gen_audit_as_case(rng, f"a{i}") for i in range(n)])
 
     def model_expr(self, o):
